@@ -89,6 +89,57 @@ def check(ctx):
         # the library agrees with itself but not with the model: a fidelity problem of the connection model, reported as such
         vf.violation(ctx, "S-multi-model-%d" % mm[0], {"kind": "correspondence-broken", "suite": "S-multi", "case": multi_cases[mm[0]],
                                                      "implementation": multi_out[mm[0]][-2000:], "model": model_out[mm[0]][-2000:]}, no_input=True)
+    # the parts the connection model does not cover (decompression with its limits, cookies, authorization, urlencoded and multipart handlers) also
+    # read the shared configuration: library against itself, interleaved vs solo, with the frame check (cfg full=1)
+    import c01
+    fmulti, fsolo, fowner = [], [], []
+    for m in range(nmulti // 2):
+        cfg = sconnp.cfg_str(p=rng.choice([1, 2, 5, 9])) + ",full=1"
+        k = rng.randint(2, 4)
+        conns = []
+        for _c in range(k):
+            ops = ["O"]
+            for t in range(rng.randint(1, 2)):
+                rq, rs = c01.full_request(rng, t), c01.full_response(rng, t, False)
+                if len(rs) > 4000:
+                    rs = c01.full_response(rng, t, False)
+                if rng.random() < 0.3:
+                    # content-coding lists that reach the layer / LZMA limits of the configuration
+                    rs = b"HTTP/1.1 200 OK\r\nContent-Encoding: " + rng.choice([b"gzip, lzma", b"lzma, gzip", b"lzma", b"gzip, gzip, gzip", b"lzma, lzma", b"deflate, lzma"]) + \
+                         b"\r\nContent-Length: 10\r\n\r\n0123456789"
+                for piece in sconnp.cut(rq, sconnp.split_points(rq, rng, "random")):
+                    ops.append("Q" + piece.hex())
+                for piece in sconnp.cut(rs, sconnp.split_points(rs, rng, "random")):
+                    ops.append("S" + piece.hex())
+            ops.append("C")
+            conns.append(ops)
+        total = sum(len(c) for c in conns)
+        sched = "".join(str(rng.randrange(k)) for _ in range(total * 2))
+        fmulti.append("multi\t%s\t%s\t%s" % (cfg, sched, "\t".join(",".join(c) for c in conns)))
+        for c in conns:
+            fsolo.append(sconnp.case(c, cfg=cfg))
+            fowner.append(m)
+    fo, fb = vf.run_sharded(ctx, exe, fmulti, "S-multi-full")
+    fo, _ = vf.strip_traces(fo)
+    fso, fb2 = sconnp.run_impl(ctx, fsolo, tag="S-multi-full-solo")
+    ctx.cov["evaluations"] += len(fmulti) + len(fsolo)
+    if fb:
+        vf.report_crash(ctx, "S-multi-full", fmulti, fb)
+    if fb2:
+        vf.report_crash(ctx, "S-multi-full-solo", fsolo, fb2)
+    fexp = {}
+    for m, o in zip(fowner, fso):
+        fexp.setdefault(m, []).append(o)
+    nfb = 0
+    for m, (c, o) in enumerate(zip(fmulti, fo)):
+        exp = "###".join(fexp.get(m, [])) + " frame=ok"
+        if o != exp and not fb and not fb2:
+            nfb += 1
+            if nfb <= 2:
+                kind = "shared-configuration-written" if "frame=CHANGED" in o else "interleaved-run-differs-from-solo-run"
+                vf.violation(ctx, "S-multi-full-%d" % m, {"kind": kind, "suite": "S-multi (full configuration, library only)", "case": c, "interleaved": o[-3000:],
+                                                         "solo_runs_joined": exp[-3000:], "theorem": "Properties_C19.v C19_noninterference (shape of the code)"})
+    ctx.cov["suites"]["S-multi-full(impl only)"] = {"cases": len(fmulti), "connections": len(fsolo), "mismatch_vs_solo": nfb}
     # writable globals
     objs = vf.build_objs(ctx, "plain")
     found = set()
